@@ -22,6 +22,7 @@
 Python only chooses inputs and projects values; every verdict is TLC's.
 """
 
+import copy
 import threading
 import warnings
 from fractions import Fraction
@@ -38,7 +39,8 @@ N_REPEAT = 8          # identical query rows per exact case (tie breaking / samp
 # concrete label encodings; abstract class r (1-based sorted position) -> labels[r-1]
 ENCODINGS = {
     "int": {"labels": [3, 10, 25], "missing": -1},
-    "float": {"labels": [0.5, 1.5, 4.0], "missing": float("nan")},
+    # integer-valued floats: scikit-learn estimators reject non-integral float class labels
+    "float": {"labels": [4.0, 6.0, 9.0], "missing": float("nan")},
     "str": {"labels": ["aa", "b", "cc"], "missing": "none"},
     # labels equal to column indices (hides decoding defects, used only in
     # addition to the others for the numeric classifiers)
@@ -176,13 +178,20 @@ def _call(trace, where, fn):
         return False, None
 
 
+def _fresh(clf):
+    """every public call is made on a copy of the fitted classifier, so that
+    each observation is a function of the fitted state (member classifiers
+    advance their random generators when they break ties)"""
+    return copy.deepcopy(clf)
+
+
 def _exact_events(trace, clf, Xq, labs, K, with_freq):
-    ok, P = _call(trace, "predict_proba", lambda: np.asarray(clf.predict_proba(Xq)))
+    ok, P = _call(trace, "predict_proba", lambda: np.asarray(_fresh(clf).predict_proba(Xq)))
     if not ok:
         return
     Fobs = None
     if with_freq:
-        ok, Fobs = _call(trace, "predict_freq", lambda: np.asarray(clf.predict_freq(Xq)))
+        ok, Fobs = _call(trace, "predict_freq", lambda: np.asarray(_fresh(clf).predict_freq(Xq)))
         if not ok:
             return
     if P.ndim != 2 or P.shape[0] != len(Xq) or (Fobs is not None and Fobs.shape != P.shape):
@@ -191,7 +200,7 @@ def _exact_events(trace, clf, Xq, labs, K, with_freq):
     trace["events"].append({"ev": "Proba", "P": [_rat(v) for v in P[0]],
                             "fin": bool(np.isfinite(P.astype(float)).all()),
                             "F": [_small_int(v) for v in Fobs[0]] if Fobs is not None else []})
-    ok, pred = _call(trace, "predict", lambda: np.asarray(clf.predict(Xq)))
+    ok, pred = _call(trace, "predict", lambda: np.asarray(_fresh(clf).predict(Xq)))
     if not ok:
         return
     if pred.shape != (len(Xq),):
@@ -200,16 +209,16 @@ def _exact_events(trace, clf, Xq, labs, K, with_freq):
     trace["events"].append({"ev": "Predict", "preds": _pred_indices(pred, labs)})
 
 
-def _row_events(trace, clf, Xq, labs, K, with_freq, predict_proba=None):
-    ok, P = _call(trace, "predict_proba", lambda: np.asarray((predict_proba or clf.predict_proba)(Xq)))
+def _row_events(trace, clf, Xq, labs, K, with_freq):
+    ok, P = _call(trace, "predict_proba", lambda: np.asarray(_fresh(clf).predict_proba(Xq)))
     if not ok:
         return
     Fobs = None
     if with_freq:
-        ok, Fobs = _call(trace, "predict_freq", lambda: np.asarray(clf.predict_freq(Xq)))
+        ok, Fobs = _call(trace, "predict_freq", lambda: np.asarray(_fresh(clf).predict_freq(Xq)))
         if not ok:
             return
-    ok, pred = _call(trace, "predict", lambda: np.asarray(clf.predict(Xq)))
+    ok, pred = _call(trace, "predict", lambda: np.asarray(_fresh(clf).predict(Xq)))
     if not ok:
         return
     if (P.ndim != 2 or P.shape[0] != len(Xq) or pred.shape != (len(Xq),)
@@ -350,13 +359,22 @@ def _realise_wrap(case, rng):
 
 
 def _features(cls_ids, rng, dups, d=2):
+    """dups: False | "all" (every point identical) | "class" (all points of a
+    class identical, unlabeled points copy a labeled one)"""
     n = len(cls_ids)
-    if dups:
+    if dups == "all" or dups is True:
         return np.tile(rng.normal(size=(1, d)).round(2), (n, 1))
     X = np.zeros((n, d))
     for i, c in enumerate(cls_ids):
         cc = -1 if c is None else c
-        X[i] = np.array([2.0 * cc, -1.0 * cc] + [0.0] * (d - 2))[:d] + 0.3 * rng.normal(size=d)
+        X[i] = np.array([2.0 * cc, -1.0 * cc] + [0.0] * (d - 2))[:d]
+        if dups != "class":
+            X[i] += 0.3 * rng.normal(size=d)
+    if dups == "class":
+        lab = [i for i, c in enumerate(cls_ids) if c is not None]
+        for i, c in enumerate(cls_ids):
+            if c is None and lab:
+                X[i] = X[lab[int(rng.integers(len(lab)))]]
     return X.round(3)
 
 
@@ -377,7 +395,9 @@ def _wrap_case(case, rng, seed, encs):
     K = case["K"]
     samples, use_w = _realise_wrap(case, rng)
     cls_ids = [c for c, _ in samples]
-    X = _features(cls_ids, rng, case["scen"] == "dups")
+    # wrapped scikit-learn estimators: duplicates are identical points within a
+    # class (GaussianNB on data without any variance is outside its envelope)
+    X = _features(cls_ids, rng, "class" if case["scen"] == "dups" else False)
     w = np.array([float(wt) for _, wt in samples]) if use_w else None
     F_real = [int(sum((wt if use_w else 1) for c, wt in samples if c == k)) for k in range(K)]
     lc_real = [sum(1 for c, _ in samples if c == k) for k in range(K)]
@@ -414,6 +434,10 @@ def _wrap_case(case, rng, seed, encs):
             fitted = bool(fitted)
             tr["cfgclass"] = "%s,%s" % ("fitted" if fitted else "unfitted",
                                          "default-cost" if case["dflt"] else "cost_matrix")
+            if fitted and case["dflt"]:
+                # the decision is the wrapped estimator's own predict
+                tr["cfgclass"] += ",%s.%s,%s" % (name, how, "all-classes-seen" if all(case["seen"])
+                                                 else "declared-classes-unseen")
             tr["estOK"] = fitted
             if not fitted:
                 tr["F"] = [0] * K
@@ -654,8 +678,8 @@ def main(tier="quick", seed=0):
     th.start()
 
     # (G) cases from TLC; the residue classes depend on the seed
-    env = {"GEN_CM_MOD": 40 if quick else 6, "GEN_CM_REM": seed, "GEN_MOD": 8 if quick else 3,
-           "GEN_WRAP_MOD": 5 if quick else 2, "GEN_REM": 7 * seed + 1}
+    env = {"GEN_CM_MOD": 40 if quick else 6, "GEN_CM_REM": seed, "GEN_MOD": 48 if quick else 3,
+           "GEN_WRAP_MOD": 14 if quick else 2, "GEN_REM": 7 * seed + 1}
     cases = chk.generate("MC_Classify", "Classify_gen.cfg" if quick else "Classify_gen_thorough.cfg", env=env)
     if not cases:
         raise _tlc.MachineryError("the generator produced no case")
@@ -668,11 +692,13 @@ def main(tier="quick", seed=0):
         key = (c["K"], tuple(c["decl"]), c["dflt"], repr(c["cm"]), tuple(c["seen"]), c["scen"], c["prior"][0])
         scen.setdefault(key, c)
     keys = sorted(scen)
-    pick = rng.permutation(len(keys))[: (260 if quick else 2500)]
+    pick = rng.permutation(len(keys))[: (160 if quick else 2500)]
     all_enc = ["int", "float", "str", "idx"]
     for n, i in enumerate(pick):
         items.append(("scenario", scen[keys[i]], int(rng.integers(0, 2 ** 31)), seed, all_enc[n % 4]))
+    import sys, time as _t; _t0=_t.time(); print("DBG gen done", _t0-chk.t0, file=sys.stderr)
     out = pmap(_work, items)
+    print("DBG replay", _t.time()-_t0, file=sys.stderr)
     traces = []
     for tr, n in out:
         traces.extend(tr)
@@ -687,7 +713,9 @@ def main(tier="quick", seed=0):
     chk.sample({"numeric_trace": {k: v for k, v in num[len(num) // 2].items()}})
     chk.validate("ClassifyTrace", traces, describe=_describe, key_of=_key_of)
 
+    print("DBG validated", _t.time()-_t0, file=sys.stderr)
     th.join()
+    print("DBG mc joined", _t.time()-_t0, file=sys.stderr)
     if "err" in mc:
         raise mc["err"]
     res = mc["res"]
